@@ -128,3 +128,27 @@ def kind_of(t: Any, maxdepth: int = 1) -> str:
         return type(p).__name__
 
     return leaf(t, 0)
+
+
+def pair_shape(s: Any, t: Any) -> str:
+    """Cause-level class of an (unordered) pair: the two top-level shapes; for callable x callable the
+    RELATION between the signatures (argument kinds differ / only names differ / same shape), because
+    that, not the particular kinds, is what the join/meet code paths branch on."""
+    from mypy.types import CallableType, get_proper_type
+
+    ps, pt = get_proper_type(s), get_proper_type(t)
+    if isinstance(ps, CallableType) and isinstance(pt, CallableType):
+        if kind_of(ps, 0) == "Callable[P]" or kind_of(pt, 0) == "Callable[P]":
+            rel = "one side is a ParamSpec callable"
+        elif list(ps.arg_kinds) != list(pt.arg_kinds):
+            rel = "argument kinds differ"
+        elif list(ps.arg_names) != list(pt.arg_names):
+            rel = "same kinds, argument names differ"
+        else:
+            rel = "same kinds and names"
+        return f"Callable x Callable ({rel})"
+    k1, k2 = kind_of(ps, 0), kind_of(pt, 0)
+    k1 = "Callable" if k1.startswith("Callable") else k1
+    k2 = "Callable" if k2.startswith("Callable") else k2
+    a, b = sorted((k1, k2))
+    return f"{a} x {b}"
